@@ -95,9 +95,9 @@ pub struct Trial {
 
 pub fn dirs(tag: &str, k: usize) -> (String, String) {
     let base = std::env::var("VERIF_RUN_DIR").unwrap_or_else(|_| "/verif/.run/proc".to_string());
-    let root = format!("{}/{}_{}_{}", base, tag, std::process::id(), k);
+    let root = format!("{}/{}_{}_{}", base, tag, vkit::proc_token(), k);
     let _ = std::fs::create_dir_all(&root);
-    (root, format!("p{}{}k{}_", tag, std::process::id(), k))
+    (root, format!("p{}{}k{}_", tag, vkit::proc_token(), k))
 }
 
 /// kill the child of `scenario` at stop `k`, run the solo survivor, classify the outcome
